@@ -207,6 +207,17 @@ pub fn render_config(p: &Project, r: &mut Rng) -> String {
 
 const TAGS: [&str; 13] = ["proto", "latin", "old-spanish", "spanish", "alpha", "beta", "gamma_2", "pgmc", "nwg", "x1", "lat", "PGmc", "Old_High-German"];
 
+/// word files of a seq project always hold at least one entry (an empty word list is an
+/// error of its own: 'No input words defined')
+fn nonempty_words(d: &Data, r: &mut Rng) -> Vec<String> {
+    loop {
+        let w = c19gen::gen_words(d, r);
+        if !w.is_empty() {
+            return w;
+        }
+    }
+}
+
 pub fn gen_project(d: &Data, r: &mut Rng, bad: Option<&str>) -> Project {
     // the stated quantifier is 1-4 tags; one project in ten is larger
     let ntags = if r.chance(1, 10) { r.range(5, 6) } else { r.range(1, 4) };
@@ -232,7 +243,7 @@ pub fn gen_project(d: &Data, r: &mut Rng, bad: Option<&str>) -> Project {
     let many_word_files = r.chance(1, 8);
     let mut wlist: Vec<String> = Vec::new();
     for i in 0..nw {
-        word_files.insert(wstems[i].to_string(), c19gen::gen_words(d, r));
+        word_files.insert(wstems[i].to_string(), nonempty_words(d, r));
         wlist.push(wstems[i].to_string());
     }
     // optional deromaniser-only alias on root tags
@@ -443,7 +454,7 @@ pub fn gen_scn(d: &Data, r: &mut Rng, faulty: bool, bad: Option<&str>) -> Scn {
             let stems: Vec<String> = project.word_files.keys().cloned().collect();
             let stem = r.pick(&stems).clone();
             let words = match r.below(3) {
-                0 => c19gen::gen_words(d, r),
+                0 => nonempty_words(d, r),
                 1 => {
                     let mut w = project.word_files[&stem].clone();
                     w.push(c19gen::safe_word(d, r));
